@@ -118,6 +118,8 @@ class Tally:
         self.runs = 0
         self.ok = 0
         self.keys = set()
+        self.known = {k["id"] for k in vlib.load_known_findings()
+                      if k.get("status") == "known" and (k.get("property") == "C18" or "C18" in k.get("properties", []))}
 
 
 def judge(chk, tally, scens, rows, obs):
@@ -144,14 +146,15 @@ def judge(chk, tally, scens, rows, obs):
         with tally.lock:
             n = tally.full.get(dev, 0)
             tally.full[dev] = n + 1
-        if dev is None or n < 5:
+        listed = dev is not None and all(d in tally.known for d in dev.split("+"))
+        if not listed or n < 5:
             case = {"run": {k: row[k] for k in row if k != "si"}, "expected": exp,
                     "expected_under_deviation": [e for e in s["expdev"] if e["arch"] == row["arch"]],
                     "observed": {"a": a, "b": b, "document": o.get("d"), "event": o.get("e")}}
         else:
-            case = {"t": s["t"], "arch": row["arch"]}           # bounded memory: details are kept for the first cases only
+            case = {"t": s["t"], "arch": row["arch"]}           # bounded memory: listed known findings keep details for the first cases only
         with tally.lock:
-            chk.fail(what if (dev is None or n < 5) else "%s %s" % (row["arch"], s["t"]), case, dev=dev)
+            chk.fail(what if (not listed or n < 5) else "%s %s" % (row["arch"], s["t"]), case, dev=dev)
 
 
 def process(chk, tally, scens, tag):
@@ -261,9 +264,13 @@ def replay(path):
     if a == case["expected"]["a"] and b == case["expected"]["b"]:
         print("OK property=C18 replay: observation equals the prescribed one")
         return 0
+    known = Tally().known
     for e in case.get("expected_under_deviation", []):
         if e["arch"] == row["arch"] and e["a"] == a and e["b"] == b:
-            print("KNOWN-FINDING candidate: observation equals the one prescribed under %s" % e["dev"])
-            return 0
+            if all(d in known for d in e["dev"].split("+")):
+                print("KNOWN-FINDING: property=C18 observation equals the one prescribed under %s" % e["dev"])
+                return 0
+            print("VIOLATION property=C18 replay=%s [observation equals the one prescribed under %s, which is not a listed known finding]" % (path, e["dev"]))
+            return 1
     print("VIOLATION property=C18 replay=%s" % path)
     return 1
